@@ -209,6 +209,24 @@ ambiguous, or about a different quantity (bytes vs words, including vs excluding
 octet; 0-based vs 1-based; inclusive vs exclusive) - so the commit reads as a correctness fix, cites the text, and is wrong for the cases where
 the two readings differ. The cases the tests use must be ones where both readings agree.""",
  ],
+ "r21": [
+"""Aim for a defect visible only through a SECONDARY PUBLIC ENTRY POINT - public API next to the main path that applications and other
+crates do call: `write_into_unchecked` called directly (on an exactly sized or a longer buffer), an FCI builder or an SDES chunk / item
+builder written on its own, `FciParser::parse` called directly on control information, the `RtcpPacketParserExt` getters (`version`,
+`count`, `length`, ...), `try_as` / `TryFrom` in all their forms, `utils`-level public helpers, `Clone`d or re-used values. The main path
+(`write_into` on a packet builder, `parse` + the primary accessors) that the tests use must behave bit-for-bit as before.""",
+"""Aim for a change to a PUBLIC CONSTANT, ASSOCIATED CONST, DEFAULT or DEFAULTED TRAIT ITEM: `MIN_PACKET_LEN`, `MAX_COUNT`, `PACKET_TYPE`,
+`FCI_FORMAT`, the `SdesItem::*` type constants, an `EXPECTED_SIZE`, a `Default` impl or the initial value a builder starts from, a defaulted
+trait method or const that one implementor now overrides (or no longer does) - made for a good-looking reason (naming a magic number,
+aligning with the RFC text, sharing a definition) - so that code which derives from the constant changes behaviour in a corner while the
+places that still use a literal stay as they were. Everything the tests exercise must be unchanged.""",
+"""Aim for a RUST SEMANTICS SUBTLETY: operator precedence (`<<` vs `+`, `|` vs `+`, `as` binding tighter than arithmetic, `!` on an integer vs
+a bool), integer promotion in `as` chains (sign extension, truncation before vs after a shift), inclusive vs exclusive ranges, a shadowed
+variable, a closure capturing a value before it is updated, lazy iterator adaptors that are never driven or driven twice, `zip` / `take` /
+`chunks` truncating silently, `sort` stability or `dedup` needing sorted input, `min`/`max` argument order with equal keys, `Option` combinators
+(`or` vs `or_else`, `and_then` vs `map`, `unwrap_or_default`) evaluating or defaulting where they should not. The code must read as correct
+at a glance and be correct for every value the tests use.""",
+ ],
 }
 
 
